@@ -75,7 +75,11 @@ func (dtm *GraphsyncFilecoinV1) ReadFrom(r io.Reader) (n int64, err error) {
 	}
 
 	nb := graphSyncFilecoinV1Prototype.NewBuilder()
-	err = dagcbor.Decode(nb, cr)
+	// Other transports may follow in the same reader.
+	err = dagcbor.DecodeOptions{
+		AllowLinks:         true,
+		DontParseBeyondEnd: true,
+	}.Decode(nb, cr)
 	if err != nil {
 		return cr.readCount, err
 	}
